@@ -66,9 +66,25 @@ def case(draw, tier):
         c["table2"] = draw(gen.table(H, [kc, kc, vc, None], max_rows=maxrows, id_col=3))
     if op in ("mergeduplicates", "merge"):
         c["missing"] = draw(st.sampled_from([None, None, 0]))
+    if op == "merge":
+        c["reverse"] = draw(st.booleans())
     if op == "valuecounts":
         c["key"] = draw(st.sampled_from(["k", ("k", "j")]))
     return c
+
+
+class _PassDiffers(Exception):
+    pass
+
+
+def _rows2(view):
+    """Rows of the first pass; a second pass over the same view must give the same rows (the sorted input may by then be
+    served from a memory or file cache)."""
+    a = [tuple(r) for r in view]
+    b = [tuple(r) for r in view]
+    if a != b:
+        raise _PassDiffers("second pass gave %r, first pass %r" % (b, a))
+    return a
 
 
 def _cellv(r, i):
@@ -140,7 +156,7 @@ def check(case, ctx):
         return Fail("%s/%s" % (op, kind), "%s on %r key=%r %r gave %r, reference %r" % (op, tbl, key, kw, got, exp))
     try:
         if op == "agg_len":
-            got = [tuple(r) for r in etl.aggregate(src, petl_key, len, **kw)]
+            got = _rows2(etl.aggregate(src, petl_key, len, **kw))
             exp = [_keyhdr(key) + ("value",)] + [_keycols(key, k) + (len(g),) for k, g in groups]
             if got != exp:
                 return fail("rows", got, exp)
@@ -151,7 +167,7 @@ def check(case, ctx):
             akw = dict(kw)
             if field:
                 akw["field"] = field
-            got = [tuple(r) for r in etl.aggregate(src, petl_key, list, value, **akw)]
+            got = _rows2(etl.aggregate(src, petl_key, list, value, **akw))
 
             def val(r):
                 if value is None:
@@ -169,7 +185,7 @@ def check(case, ctx):
             if form == "list":
                 # documented list form: list of (outfield, spec...) is not supported; use OrderedDict built from a list
                 spec = collections.OrderedDict(list(MULTI))
-            got = [tuple(r) for r in etl.aggregate(src, petl_key, spec, **kw)]
+            got = _rows2(etl.aggregate(src, petl_key, spec, **kw))
             exp = [_keyhdr(key) + tuple(n for n, _ in MULTI)] + [_keycols(key, k) + _multi_expected(g) for k, g in groups]
             got = [r[:-1] + ([tuple(x) for x in r[-1]],) if n > 0 else r for n, r in enumerate(got)]
             if got != exp:
@@ -178,42 +194,42 @@ def check(case, ctx):
             rows = [tuple(r) for r in tbl[1:]]
             spec = case["spec"]
             if spec == "len":
-                got = [tuple(r) for r in etl.aggregate(src, None, len)]
+                got = _rows2(etl.aggregate(src, None, len))
                 exp = [("value",), (len(rows),)]
             elif spec == "list":
-                got = [tuple(r) for r in etl.aggregate(src, None, list, "id")]
+                got = _rows2(etl.aggregate(src, None, list, "id"))
                 exp = [("value",), ([_cellv(r, 3) for r in rows],)]
             else:
-                got = [tuple(r) for r in etl.aggregate(src, None, collections.OrderedDict(MULTI))]
+                got = _rows2(etl.aggregate(src, None, collections.OrderedDict(MULTI)))
                 got = [r[:-1] + ([tuple(x) for x in r[-1]],) if n > 0 else r for n, r in enumerate(got)]
                 exp = [tuple(n for n, _ in MULTI)] + ([_multi_expected(rows)] if rows else [])
             if got != exp:
                 return fail("rows", got, exp)
         elif op == "rowreduce":
-            got = [tuple(r) for r in etl.rowreduce(src, petl_key, lambda k, rows: [k, [r["id"] for r in rows]], header=["key", "ids"], **kw)]
+            got = _rows2(etl.rowreduce(src, petl_key, lambda k, rows: [k, [r["id"] for r in rows]], header=["key", "ids"], **kw))
             exp = [("key", "ids")] + [(k, [_cellv(r, 3) for r in g]) for k, g in groups]
             if got != exp:
                 return fail("rows", got, exp)
         elif op == "rowgroupmap":
-            got = [tuple(r) for r in etl.rowgroupmap(src, petl_key, lambda k, rows: [[k, r["id"], i] for i, r in enumerate(rows)], header=["key", "id", "i"], **kw)]
+            got = _rows2(etl.rowgroupmap(src, petl_key, lambda k, rows: [[k, r["id"], i] for i, r in enumerate(rows)], header=["key", "id", "i"], **kw))
             exp = [("key", "id", "i")] + [(k, _cellv(r, 3), i) for k, g in groups for i, r in enumerate(g)]
             if got != exp:
                 return fail("rows", got, exp)
         elif op == "fold":
             f = lambda a, b: (a if isinstance(a, list) else [a]) + [b]  # noqa
-            got = [tuple(r) for r in etl.fold(src, petl_key, f, "id", **kw)]
+            got = _rows2(etl.fold(src, petl_key, f, "id", **kw))
             exp = [("key", "value")] + [(k, functools.reduce(f, [_cellv(r, 3) for r in g])) for k, g in groups]
             if got != exp:
                 return fail("rows", got, exp)
         elif op in ("first", "last"):
             fn = etl.groupselectfirst if op == "first" else etl.groupselectlast
-            got = [tuple(r) for r in fn(src, key, **kw)]
+            got = _rows2(fn(src, key, **kw))
             exp = [tuple(tbl[0])] + [(g[0] if op == "first" else g[-1]) for k, g in groups]
             if got != exp:
                 return fail("rows", got, exp)
         elif op in ("min", "max"):
             fn = etl.groupselectmin if op == "min" else etl.groupselectmax
-            got = [tuple(r) for r in fn(src, key, "v", **kw)]
+            got = _rows2(fn(src, key, "v", **kw))
             if got[:1] != [tuple(tbl[0])]:
                 return fail("header", got[:1], tbl[0])
             if len(got) - 1 != len(groups):
@@ -229,14 +245,19 @@ def check(case, ctx):
             missing = case["missing"]
             if op == "merge":
                 t2 = case["table2"]
-                got = [tuple(r) for r in etl.merge(src, codec.snapshot(t2), key=key, missing=missing)]
+                mkw = {"reverse": True} if case.get("reverse") else {}
+                if case["buffersize"] is not None:
+                    mkw["buffersize"] = case["buffersize"]
+                got = _rows2(etl.merge(src, codec.snapshot(t2), key=key, missing=missing, **mkw))
                 allrows = [tbl[0]] + [list(r) for r in tbl[1:]] + [list(r) for r in t2[1:]]
                 groups = R.ref_groups(allrows, key)
+                if case.get("reverse"):
+                    groups = groups[::-1]   # descending key order; each group still holds all rows of its key
                 # merge hands `missing` to mergesort (fill value for absent fields); the merging of
                 # duplicates itself uses its default missing=None, as documented
                 missing = None
             else:
-                got = [tuple(r) for r in etl.mergeduplicates(src, key, missing=missing, **kw)]
+                got = _rows2(etl.mergeduplicates(src, key, missing=missing, **kw))
             knames = [key] if isinstance(key, str) else list(key)
             vidx = [i for i, f in enumerate(H) if f not in knames]
             exp = [tuple(knames) + tuple(H[i] for i in vidx)]
@@ -253,7 +274,7 @@ def check(case, ctx):
                     if isinstance(c, frozenset) and not isinstance(c, etl.Conflict):
                         return fail("conflict-type", r, "Conflict")
         elif op == "gcdv":
-            got = [tuple(r) for r in etl.groupcountdistinctvalues(src, key, "v")]
+            got = _rows2(etl.groupcountdistinctvalues(src, key, "v"))
             exp = [_keyhdr(key) + ("value",)]
             for k, g in groups:
                 distinct = []
@@ -268,7 +289,7 @@ def check(case, ctx):
             idx = [H.index(f) for f in fields]
             vals = [R.keyof(r, idx) for r in tbl[1:]]
             cnt = collections.Counter(vals)
-            got = [tuple(r) for r in etl.valuecounts(src, *fields)]
+            got = _rows2(etl.valuecounts(src, *fields))
             if got[:1] != [tuple(fields) + ("count", "frequency")]:
                 return fail("header", got[:1], fields)
             gotc = {}
@@ -289,6 +310,8 @@ def check(case, ctx):
             vc = etl.valuecounter(codec.snapshot(tbl), *fields)
             if dict(vc) != dict(cnt):
                 return fail("valuecounter", dict(vc), dict(cnt))
+    except _PassDiffers as ex:
+        return Fail(op + "/second-pass-differs", "%s on %r key=%r %r: %s" % (op, tbl, key, kw, ex))
     except Exception as ex:
         return exc_fail(op, ex)
     return None
